@@ -537,6 +537,7 @@ def instances(tier, seed):
                 shapes = ["follow", "elongated_left", "elongated_right", "shifted_site"]
                 for si, shape in enumerate(shapes):
                     light = {("skip", "T1", "follow"), ("skip", "T2", "elongated_right"), ("alt_ends", "T8", "follow"), ("skip", "T1", "elongated_left"),
+                             ("alt_ends", "T1", "elongated_left"),
                              [("skip", "T2", "shifted_site"), ("skip", "T1", "shifted_site"), ("skip", "T2", "elongated_left")][seed % 3]}
                     if q and (locus, tid, shape) not in light:
                         continue
